@@ -10,7 +10,7 @@ from __future__ import annotations
 import importlib
 import inspect
 import pkgutil
-from dataclasses import dataclass, field
+from dataclasses import dataclass
 from typing import Any, Callable
 
 import btclib
@@ -25,7 +25,6 @@ from btclib.block.block_header import BlockHeader
 from btclib.curves import sec_point
 from btclib.descriptors import descriptors, miniscript
 from btclib.ecc import bms, borromean, dsa, ecies, ellswift, ssa
-from btclib.p2p import message as p2p_message
 from btclib.psbt import psbt_utils
 from btclib.psbt.psbt import Psbt
 from btclib.psbt.psbt_in import PsbtIn
@@ -130,7 +129,9 @@ BIN_EPS: list[BinEP] = [
     BinEP("btclib.psbt.psbt_utils.deserialize_bytes", lambda a, cv, x: psbt_utils.deserialize_bytes(x, a, "bytes"), ("script",), param="bytes", has_cv=False, variants=(b"\x04", b"", b"\x04\x00")),
     BinEP("btclib.bip32.bip32.BIP32KeyData.parse", _cv(BIP32KeyData.parse), ("xkey",)),
     BinEP("btclib.bip32.key_origin.BIP32KeyOrigin.parse", _cv(BIP32KeyOrigin.parse), ("key_origin",), param="Octets"),
-    BinEP("btclib.ecc.dsa.Sig.parse", lambda a, cv, x: dsa.Sig.parse(a, check_validity=cv, strict=x), ("der_sig",), variants=(True, False)),
+    # strict DER: "A stream is held to the same rule as a bytes buffer" (the parser's own comment, after Core's IsValidSignatureEncoding): documented, not asked
+    BinEP("btclib.ecc.dsa.Sig.parse", lambda a, cv, x: dsa.Sig.parse(a, check_validity=cv, strict=True), ("der_sig",), reads_all=True, key="ecc.dsa.Sig.parse[strict]"),
+    BinEP("btclib.ecc.dsa.Sig.parse", lambda a, cv, x: dsa.Sig.parse(a, check_validity=cv, strict=False), ("der_sig",), key="ecc.dsa.Sig.parse[lax]"),
     BinEP("btclib.ecc.ssa.Sig.parse", _cv(ssa.Sig.parse), ("ssa_sig",)),
     BinEP("btclib.ecc.bms.Sig.parse", _cv(bms.Sig.parse), ("bms_sig",)),
     BinEP("btclib.ecc.borromean.BorromeanSig.parse", lambda a, cv, x: borromean.BorromeanSig.parse(a, x, check_validity=cv), ("borromean",), variants=("seed", (), (1,), (2, 1), (0,), (10**6,))),
